@@ -21,7 +21,7 @@ func vCount(e *vExpr, g *VerifGrammar) {
 		return
 	}
 	switch e.op {
-	case "lit":
+	case "lit", "lit2":
 		g.Literals++
 	case "prod":
 		g.ProdRefs++
@@ -46,6 +46,8 @@ func vCount(e *vExpr, g *VerifGrammar) {
 
 // VerifEnumGrammars enumerates the bounded family of grammars (see TestVerif_C08_LeftRecursion) and prints each.
 func VerifEnumGrammars(one, twoA, twoB int, visit func(g VerifGrammar)) {
+	vWithEscapedLiteral = true
+	defer func() { vWithEscapedLiteral = false }()
 	emit := func(bodies []*vExpr) {
 		g := VerifGrammar{Desc: vDescribe(bodies), Ops: map[string]int{}}
 		reach := map[int]bool{0: true}
